@@ -150,7 +150,7 @@ def run(ctx):
         import json as _json
         import re as _re
         okv = [x.value_str() for x in okr]
-        m = _re.match(r'^Ok\(\(%sStartOk\{client_properties: (\w+), locale: self\.locale, mechanism: %s, response: auth::Sasl::response\(self\.auth\)\}, start\.server_properties\)\)$' % (_re.escape(CONN), _re.escape(mech)), okv[0]) if okv else None
+        m = _re.match(r'^Ok\(\(%sStartOk\{client_properties: ([\w$]+), locale: self\.locale, mechanism: %s, response: auth::Sasl::response\(self\.auth\)\}, start\.server_properties\)\)$' % (_re.escape(CONN), _re.escape(mech)), okv[0]) if okv else None
         r.check('StartOk:fields', len(okr) >= 2 and m is not None and all(v == okv[0] for v in okv), site, built=sorted(set(okv)), expected=want)
         PROPS = m.group(1) if m else 'client_properties'
         # effective inserts into the property tables: direct ones, and the body of a local closure once per call of it
@@ -179,7 +179,7 @@ def run(ctx):
             for k in keys:
                 flat.append((args[0], k, args[2], gs))
         caps_ins = [x for x in flat if x[0] == PROPS and x[1] == '"capabilities"']
-        mc = _re.match(r'^amq_protocol::types::AMQPValue::FieldTable\((\w+)\)$', caps_ins[0][2]) if len(caps_ins) == 1 else None
+        mc = _re.match(r'^amq_protocol::types::AMQPValue::FieldTable\(([\w$]+)\)$', caps_ins[0][2]) if len(caps_ins) == 1 else None
         CAPS = mc.group(1) if mc else None
         r.check('capabilities-attached', CAPS is not None and caps_ins[0][3] == [], site, built=[x[:3] for x in caps_ins], expected='client_properties["capabilities"] = FieldTable(<the capability table>), unconditionally')
         props = [(k, v, g) for t, k, v, g in flat if t == PROPS and k != '"capabilities"']
